@@ -20,5 +20,8 @@ View == vars
 ProgJson == [kind |-> prog.kind, ins |-> prog.ins, vals |-> prog.vals]
 Emit == PrintT(<<"SCHED", ToJson([prog |-> ProgJson, h |-> h'])>>)
 (* simulation: print every prefix; the driver keeps the maximal ones *)
+(* sampled export of a large instance: every transition is printed with probability 1/SampleRate *)
+SampleRate == 250
+EmitSample == (RandomElement(1..SampleRate) = 1) => PrintT(<<"SCHED", ToJson([prog |-> ProgJson, h |-> h'])>>)
 SimInv == PrintT(<<"SCHED", ToJson([prog |-> ProgJson, h |-> h])>>)
 =============================================================================
